@@ -145,7 +145,10 @@ class C11(Plugin):
             if case["k"] == 2:
                 root = [c for c in root if isinstance(c.tag, str) and c.tag != "<!DOCTYPE>"][0]
                 root.tail = None
-        return list(html5lib.getTreeWalker(w)(root))
+        walker = html5lib.getTreeWalker(w)(root)
+        first = list(walker)
+        self._second_same = enc_tokens(list(walker)) == enc_tokens(first)      # a walker can be iterated again
+        return first
 
     def impl(self, case):
         k = case["k"]
@@ -161,6 +164,8 @@ class C11(Plugin):
     def oracle(self, case, out):
         k = case["k"]
         v = []
+        if k not in (0, 5) and not getattr(self, "_second_same", True):
+            v.append(("second-iteration-differs", "walking the same TreeWalker object again yields another stream"))
         if k == 0:
             s = case["s"]
             if "".join(t[1] for t in out) != s or len(out) > 3:
